@@ -11,10 +11,12 @@ ENTRY = "SearchArray.index(docs, **options) vs SearchArray.index(docs, workers=1
 LEVEL = "proof"
 RULE = ("corpora x batch_size in 1..n+1 x workers in 1..8 x FORCED completion orders of the in-flight futures (wrapped "
         "as_completed yields a seeded permutation) x autowarm / cache_gt_than / avoid_copies / data_dir, thread switch "
-        "interval down to 1 microsecond and GIL-yielding tokenizers; every answer (tf, df, positions, lengths, avg, "
+        "interval down to 1 microsecond, GIL-yielding tokenizers, and a FORCED preemption inside TermDict.add_term (between the "
+        "id computation and the store) while several workers add new tokens; every answer (tf, df, positions, lengths, avg, "
         "phrase, default score bits) is compared with the single-batch single-thread index, the Coq model (batched "
         "pipeline) and the spec. Non-trivial = at least 3 batches and 2 groups of futures. Distinct by input hash.")
-TRUSTED = B.TRUSTED + ["ThreadPoolExecutor / GIL scheduling are exercised, not modelled; TermDict.add_term assumed atomic"]
+TRUSTED = B.TRUSTED + ["ThreadPoolExecutor / GIL scheduling are exercised, not modelled; the model assumes TermDict.add_term is atomic "
+                       "(Index/Sched.v) and the check forces a preemption inside it to test exactly that"]
 ASSUMPTIONS = B.ASSUMPTIONS + ["real thread interleavings inside add_term and the tokenizer cannot be exhibited by the model"]
 EXPLANATION = ("model = batches_of / build_batch / concat_posts / slotting by batch offset; theorems C08_* (Props/C08.v); "
                "check = configured index vs baseline index vs model vs spec, with forced completion orders.")
@@ -47,8 +49,16 @@ def gen(rng, tier):
         for t in voc[:2]:
             dfs = [sum(1 for d in docs if d and t in d)]
             qs.append(["score", [t], c04.f64_bits(c04.idf_of(nd, dfs))])
-        cases.append({"docs": docs, "tokz": rng.choice(["ws", "table", "gen", "yield"]), "opts": opts, "queries": qs,
-                      "order_seed": rng.randint(0, 10 ** 6), "switch": rng.choice([None, 1e-6, 1e-5])})
+        case = {"docs": docs, "tokz": rng.choice(["ws", "table", "gen", "yield"]), "opts": opts, "queries": qs,
+                "order_seed": rng.randint(0, 10 ** 6), "switch": rng.choice([None, 1e-6, 1e-5])}
+        if i % 6 == 5:
+            # term-dictionary race family: several threads add NEW tokens at the same time, and the harness forces a
+            # preemption between the id computation and the store (see impl: yielding len in searcharray.term_dict)
+            case["opts"]["workers"] = rng.choice([2, 3, 4, 8])
+            case["opts"]["batch_size"] = rng.choice([1, 1, 2])
+            case["preempt"] = True
+            case["tokz"] = rng.choice(["table", "gen"])
+        cases.append(case)
     return cases
 
 
@@ -106,6 +116,17 @@ def impl(case):
         rng.shuffle(fs)
         return iter(fs)
     ix.as_completed = forced
+    import builtins
+    import searcharray.term_dict as tdm
+    had_len = "len" in tdm.__dict__
+    if case.get("preempt"):
+        # forced schedule inside TermDict.add_term: a module-global `len` that sleeps lets every other worker run
+        # between "next id = len(dict)" and the store (a legal preemption point of the real code, made certain)
+        def yielding_len(x):
+            n = builtins.len(x)
+            time.sleep(0.0003)
+            return n
+        tdm.len = yielding_len
     old = sys.getswitchinterval()
     if case.get("switch"):
         sys.setswitchinterval(case["switch"])
@@ -122,6 +143,8 @@ def impl(case):
         rcfg = {"build_exc": type(e).__name__, "msg": str(e)[:100]}
     finally:
         ix.as_completed = orig
+        if case.get("preempt") and not had_len:
+            del tdm.len
         sys.setswitchinterval(old)
         if ddir:
             shutil.rmtree(ddir, ignore_errors=True)
